@@ -101,6 +101,9 @@ class SymCtx(Ctx):
     def fail(self, label, key=None, detail=None):
         self.eng.fail(label, key=key, detail=detail)
 
+    def report(self, label, key=None, detail=None):
+        self.eng.report(label, key=key, detail=detail)
+
     def eq(self, a, b):
         return a == b
 
@@ -200,6 +203,9 @@ class ConcreteCtx(Ctx):
         d = detail() if callable(detail) else detail
         self.failed.append((label, key or label, d))
         raise ConcreteViolation(label, d)
+
+    def report(self, label, key=None, detail=None):
+        self.failed.append((label, key or label, detail))
 
     def eq(self, a, b, rel=1e-7, abs_=1e-9):
         try:
